@@ -290,6 +290,29 @@ func buildValue(vc vlCase) (reflect.Value, error) {
 		if !reflect.DeepEqual(zero.Interface(), L.Interface()) {
 			m.SetMapIndex(zero, reflect.ValueOf(2))
 		}
+		// integer keys: the two neighbours as well (keys that differ only in their last bit must still be ordered)
+		switch L.Kind() {
+		case reflect.Int, reflect.Int8, reflect.Int16, reflect.Int32, reflect.Int64:
+			lo, hi := reflect.New(T).Elem(), reflect.New(T).Elem()
+			lo.SetInt(L.Int() - 1)
+			hi.SetInt(L.Int() + 1)
+			if lo.Int() < L.Int() {
+				m.SetMapIndex(lo, reflect.ValueOf(3))
+			}
+			if hi.Int() > L.Int() {
+				m.SetMapIndex(hi, reflect.ValueOf(4))
+			}
+		case reflect.Uint, reflect.Uint8, reflect.Uint16, reflect.Uint32, reflect.Uint64:
+			lo, hi := reflect.New(T).Elem(), reflect.New(T).Elem()
+			lo.SetUint(L.Uint() - 1)
+			hi.SetUint(L.Uint() + 1)
+			if lo.Uint() < L.Uint() {
+				m.SetMapIndex(lo, reflect.ValueOf(3))
+			}
+			if hi.Uint() > L.Uint() {
+				m.SetMapIndex(hi, reflect.ValueOf(4))
+			}
+		}
 		return m, nil
 	case "genericV":
 		switch x := L.Interface().(type) {
